@@ -21,16 +21,16 @@ variable {K V Q : Type}
 /-- `{:?}`, `{:#?}` and `{}` of a `Map`: `debug_map` resp. the `Display` layout over the entries
     in iteration order (= slot order `l`); the container and the world are untouched. -/
 theorem map_fmt (R : Render K V) {s : St K V Q} {l : List (K × V)} (hr : Rep s.r l) :
-    fmtMap R .debug s = .ok (StdFmt.debugMap false (l.map fun p => (R.dbgK p.1, R.dbgV p.2))) s ∧
-    fmtMap R .debugAlt s = .ok (StdFmt.debugMap true (l.map fun p => (R.dbgK p.1, R.dbgV p.2))) s ∧
+    fmtMap R .debug s = .ok (StdFmt.debugMap false (l.map fun p => (R.dbgK false p.1, R.dbgV false p.2))) s ∧
+    fmtMap R .debugAlt s = .ok (StdFmt.debugMap true (l.map fun p => (R.dbgK true p.1, R.dbgV true p.2))) s ∧
     fmtMap R .display s = .ok (StdFmt.displayMap (l.map fun p => (R.dspK p.1, R.dspV p.2))) s := by
   refine ⟨?_, ?_, ?_⟩ <;>
     simp [fmtMap, bind_apply, Micromap.getS, entriesOf_ok hr, Fmt.displayMapCode_eq]
 
 /-- the same for `Set`: `debug_set` and `{a, b}`. -/
 theorem set_fmt (R : Render K Unit) {s : St K Unit Q} {l : List (K × Unit)} (hr : Rep s.r l) :
-    fmtSet R .debug s = .ok (StdFmt.debugSet false (l.map fun p => R.dbgK p.1)) s ∧
-    fmtSet R .debugAlt s = .ok (StdFmt.debugSet true (l.map fun p => R.dbgK p.1)) s ∧
+    fmtSet R .debug s = .ok (StdFmt.debugSet false (l.map fun p => R.dbgK false p.1)) s ∧
+    fmtSet R .debugAlt s = .ok (StdFmt.debugSet true (l.map fun p => R.dbgK true p.1)) s ∧
     fmtSet R .display s = .ok (StdFmt.displaySet (l.map fun p => R.dspK p.1)) s := by
   refine ⟨?_, ?_, ?_⟩ <;>
     simp [fmtSet, bind_apply, Micromap.getS, entriesOf_ok hr, Fmt.displaySetCode_eq]
@@ -74,9 +74,9 @@ theorem iter_debug_at_prefix (R : Render K V) (kind : IterKind) (g : V → V) (c
 
 /-- what `renderRest` is: `debug_list` over the element renderings of the remaining entries. -/
 theorem renderRest_keys (R : Render K V) (alt : Bool) (l : List (K × V)) :
-    renderRest R .keys alt l = StdFmt.debugList alt (l.map fun p => R.dbgK p.1) ∧
-    renderRest R .values alt l = StdFmt.debugList alt (l.map fun p => R.dbgV p.2) ∧
-    renderRest R .values_mut alt l = StdFmt.debugList alt (l.map fun p => R.dbgV p.2) :=
+    renderRest R .keys alt l = StdFmt.debugList alt (l.map fun p => R.dbgK alt p.1) ∧
+    renderRest R .values alt l = StdFmt.debugList alt (l.map fun p => R.dbgV alt p.2) ∧
+    renderRest R .values_mut alt l = StdFmt.debugList alt (l.map fun p => R.dbgV alt p.2) :=
   ⟨rfl, rfl, rfl⟩
 
 /-- **`Drain`**: after `take` items its `Debug` lists exactly the entries it still owns,
@@ -102,7 +102,7 @@ theorem into_iter_debug (E : Env K V Q) (R : Render K V) (other : Nat → Raw K 
 /-- **Set-algebra iterators**: `Debug` of `Union` / `Intersection` / `Difference` /
     `SymmetricDifference` in any well-formed state prints `debug_list` of exactly the items the
     iterator will still yield (`Alg.algRest`, the lazily recomputed remainder); operands untouched. -/
-theorem alg_debug (F : Env K Unit Q) (hF : F.Pure) (dbg : K → String) {a b : Raw K Unit}
+theorem alg_debug (F : Env K Unit Q) (hF : F.Pure) (dbg : Bool → K → String) {a b : Raw K Unit}
     {la lb : List (K × Unit)} (hra : Rep a la) (hrb : Rep b lb) (it : AlgIt)
     (hit : Alg.AlgInv la.length lb.length it) (hm : Alg.meas it ≤ a.len + b.len)
     (cs : List IterCmd) (forks : List AlgIt) {s : St K Unit Q} (hw : Benign s.w) :
@@ -110,7 +110,7 @@ theorem alg_debug (F : Env K Unit Q) (hF : F.Pure) (dbg : K → String) {a b : R
       algScript F dbg a b (.debug :: cs) it forks s =
         (do let rest ← algScript F dbg a b cs it forks
             pure (RV.str (StdFmt.debugList false
-              ((Alg.algRest F.keq la lb it).map fun (x : AlgItem K) => dbg x.2.2)) :: rest)) s1 := by
+              ((Alg.algRest F.keq la lb it).map fun (x : AlgItem K) => dbg false x.2.2)) :: rest)) s1 := by
   obtain ⟨s1, h1, h2, h3⟩ := C08.algRunOut_exact F hF hra hrb it hit (a.len + b.len + 1) (by omega) hw
   exact ⟨s1, h2, h3, by simp [algScript, bind_apply, h1]⟩
 
